@@ -150,6 +150,31 @@ def run(res, tier):
                 if not okc:
                     fn = mprop.write_cex(res, "remove_dir_kept_%d" % i, p, E, "remove_dir_all reachable although the sub-tree contains kept entries")
                     res.violation("mir:dir-walk-removes-kept-dir", "cleanup_dir_tree removes a directory that still contains kept files", fn)
+    # ... and the walk reports "keep this directory" whenever one of its entries was kept (the caller removes the
+    # whole directory with remove_dir_all otherwise)
+    for i, p in enumerate(paths):
+        if p.kind != "return":
+            continue
+        d = p.ret.get(("disc",))
+        v = p.ret.get((("v", "Ok"), ("f", 0)))
+        if d is None or not mir.is_z(v) or not E.feasible(p.cond, d == 0):
+            continue
+        kept = []
+        for e in p.events:
+            if e.kind == "call" and re.search(r"call_mut$|(^|::)recurse$", e.name):
+                t = ok_true(E, p, e)
+                if t is not None:
+                    kept.append(t)
+        if not kept:
+            continue
+        n5 += 1
+        mdl = E.model(p.cond, z3.And(d == 0, z3.Or(kept), z3.Not(v)))
+        if mdl is not None and not any(x["key"] == "mir:dir-walk-forgets-kept-entry" for x in res.violations):
+            fn = mprop.write_cex(res, "dir_walk_forgets_kept_%d" % i, p, E,
+                                 "recurse returns Ok(false) (caller removes the whole directory) although an entry was kept", mdl)
+            res.violation("mir:dir-walk-forgets-kept-entry",
+                          "cleanup_dir_tree::recurse reports a directory as removable although a file or sub-directory in it "
+                          "was kept (the keep decision of an earlier entry is overwritten): remove_dir_all deletes live data", fn)
     total += n5
     if n5 == 0:
         res.inconclusive.append("vacuity: no removal reached in cleanup_dir_tree::recurse")
